@@ -109,7 +109,9 @@ pub fn run(tier: Tier, seed: u64, replay: Option<String>) -> i32 {
     if thorough {
         run_product(&ctx, Mode::Results, &[0x8000, 0xFFFE, 0x3FFF], 1 << 20, true, seed);
     } else {
-        run_product(&ctx, Mode::Results, &[0x8000], 2048, false, seed);
+        // 0xFFFE: the instruction bytes wrap over the top of memory and PC+2 leaves the 2K page of PC
+        // (bits 11/13 of PC reach F through the repeating block instructions)
+        run_product(&ctx, Mode::Results, &[0x8000, 0xFFFE], 2048, false, seed);
     }
     // (b) all ordered pairs of encodings, state carried by each side itself
     let encs = all_encodings();
